@@ -485,12 +485,64 @@ def rule_not_full(chk, prog):
     return n
 
 
+def _same_value(a, b, prog=None, f=None, depth=0):
+    """the same expression, structurally (memory versions are not told apart: the rule asks whether two expressions are
+    written the same way, not whether they evaluate to the same value)"""
+    while a.is_inst and a.op in ("zext", "sext", "trunc", "bitcast"):
+        a = a.ops[0]
+    while b.is_inst and b.op in ("zext", "sext", "trunc", "bitcast"):
+        b = b.ops[0]
+    if a is b:
+        return True
+    if a.is_const or b.is_const:
+        return a.is_const and b.is_const and a.is_int and b.is_int and a.sval == b.sval
+    if prog is None and not (a.is_inst and b.is_inst and a.op == "load" and b.op == "load"):
+        return False
+    if depth > 6 or not (a.is_inst and b.is_inst) or a.op != b.op or len(a.ops) != len(b.ops):
+        return False
+    if a.op == "getelementptr":
+        ga, gb = a.x.get("gep"), b.x.get("gep")
+        if len(ga) != len(gb):
+            return False
+        for ea, eb in zip(ga, gb):
+            if ea[0] != eb[0]:
+                return False
+            if ea[0] in ("*", "[]"):
+                if not _same_value(ea[1], eb[1], prog, f, depth + 1):
+                    return False
+            elif ea[1:] != eb[1:]:
+                return False
+        return _same_value(a.ops[0], b.ops[0], prog, f, depth + 1)
+    if a.op in ("load", "add", "sub", "mul", "shl", "lshr", "ashr", "and", "or", "xor", "udiv", "urem", "sdiv", "srem"):
+        if all(_same_value(x, y, prog, f, depth + 1) for x, y in zip(a.ops, b.ops)):
+            return True
+        if a.op in ("add", "mul", "and", "or", "xor") and len(a.ops) == 2:
+            return _same_value(a.ops[0], b.ops[1], prog, f, depth + 1) and _same_value(a.ops[1], b.ops[0], prog, f, depth + 1)
+    return False
+
+
+def _phi_leaves(phi):
+    """(value, block it comes from) for every non-phi value that can flow into `phi` through a web of phis"""
+    out, seen, work = [], {id(phi)}, [phi]
+    while work:
+        q = work.pop()
+        for x, pb in zip(q.ops, q.x["inc"]):
+            if x.is_inst and x.op == "phi":
+                if id(x) not in seen:
+                    seen.add(id(x))
+                    work.append(x)
+            else:
+                out.append((x, pb))
+    return out
+
+
 def rule_append_same(chk, prog, units_prefix=("lib/sqfs/src/", "lib/common/src/")):
     """K12-appendsame (a contradiction rule): `if (v != list[i - 1]) list[i++] = w;` -- a value is appended to a list when it
     differs from the list's last element.  The value that is appended is the value that was compared: if the two are
     different expressions (a position in one coordinate system compared, the same position in another one stored), the
     comparison is always true or the list does not hold what its reader expects."""
     n = 0
+    seen_local = set()
     for f in prog.functions():
         if f.decl or not f.unit.src.startswith(units_prefix) or "/test/" in f.unit.src:
             continue
@@ -512,6 +564,27 @@ def rule_append_same(chk, prog, units_prefix=("lib/sqfs/src/", "lib/common/src/"
                     ul = l
                     while ul.is_inst and ul.op in ("zext", "sext", "trunc"):
                         ul = ul.ops[0]
+                    if ul.is_inst and ul.op == "phi" and (id(st), id(ul)) not in seen_local:
+                        # the same idiom with the last element carried in a local: `if (v == last) continue; list[i++] = w;
+                        # last = w;` -- the local is the list's last element iff what it takes over where the store happens
+                        # is the value that is stored
+                        for x, pb in _phi_leaves(ul):
+                            if not f.dominates(st.bb, pb):
+                                continue
+                            if _same_value(x, st.ops[0], prog, f):
+                                seen_local.add((id(st), id(ul)))
+                                n += 1
+                                chk.analysed(f)
+                                inst = "%s:append@%d" % (f.name, st.line)
+                                if _same_value(v, st.ops[0]):
+                                    chk.ok("K12-appendsame", inst, st, "the value appended is the value that was compared with the last "
+                                           "element (carried in a local)")
+                                else:
+                                    chk.violation("K12-appendsame", inst, st, "a value is compared with the last element of the list "
+                                                  "(carried in a local) but a different expression is appended: the two are not in "
+                                                  "the same coordinate system")
+                                break
+                        continue
                     if not (ul.is_inst and ul.op == "load"):
                         continue
                     q = strip_casts(ul.ops[0])
@@ -545,6 +618,102 @@ def rule_append_same(chk, prog, units_prefix=("lib/sqfs/src/", "lib/common/src/"
     return n
 
 
+def rule_slot_number(chk, prog, table=("struct.fstree_t", "inodes"), num=("struct.tree_node_t", "inode_num")):
+    """K12-slotnum: the inode table and the inode numbers are coupled (inodes[k]->inode_num == k + 1) and the code reads a
+    node's number as its slot.  Where slots of the table are rewritten, the numbers of the nodes that moved are brought up to
+    date before a number is read as a slot again: on every path from a store into a slot (or a memmove over the table) to the
+    next read of a number that is used as an index or compared, the number is stored through the pointer that was put into
+    the slot or through a pointer read from the table; after a memmove only the latter will do (one node's number does not
+    renumber a range)."""
+    def field_ptr(p, fld):
+        p = strip_casts(p)
+        return p.is_inst and p.op == "getelementptr" and p.field() == fld
+
+    def slot_ptr(p):
+        p = strip_casts(p)
+        k = 0
+        while p.is_inst and p.op == "getelementptr" and not p.field() and k < 4:
+            b = strip_casts(p.ops[0])
+            if b.is_inst and b.op == "load" and field_ptr(b.ops[0], table):
+                return True
+            p, k = b, k + 1
+        return False
+
+    def from_slot(v):
+        v = strip_casts(v)
+        return v.is_inst and v.op == "load" and slot_ptr(v.ops[0])
+
+    n = 0
+    for f in prog.functions():
+        if f.decl or "/test/" in f.unit.src:
+            continue
+        f.build()
+        moves = []
+        for i in f.insts():
+            if i.op == "store" and slot_ptr(i.ops[1]):
+                moves.append((i, strip_casts(i.ops[0])))
+            elif i.op == "call" and norm_callee(i.callee or "") in ("memmove", "memcpy") and i.ops and slot_ptr(i.ops[0]):
+                moves.append((i, None))
+        if not moves:
+            continue
+        # reads of a number that is used as a slot / compared
+        uses = set()
+        for i in f.insts():
+            if i.op == "load" and field_ptr(i.ops[0], num):
+                work, seen = [i], set()
+                while work:
+                    v = work.pop()
+                    if id(v) in seen:
+                        continue
+                    seen.add(id(v))
+                    for u in f.uses.get(v, []):
+                        if u.op in ("zext", "sext", "trunc", "phi") or (u.op in ("add", "sub") and any(o.is_const for o in u.ops)):
+                            work.append(u)
+                        elif u.op == "icmp" or (u.op == "getelementptr" and any(o is v for o in u.ops[1:])):
+                            uses.add(id(i))
+        if not uses:
+            continue
+        for mv, val in moves:
+            n += 1
+            chk.analysed(f)
+            inst = "%s:slot@%d" % (f.name, mv.line)
+
+            def closes(i):
+                if not (i.op == "store" and field_ptr(i.ops[1], num)):
+                    return False
+                b = strip_casts(strip_casts(i.ops[1]).ops[0])
+                if from_slot(b):
+                    return True
+                return val is not None and (b is val or _same_value(b, val, prog, f))
+
+            bad = None
+            work, seenb = [(mv.bb, mv.pos + 1)], set()
+            while work and bad is None:
+                b, start = work.pop()
+                closed = False
+                for i in b.insts[start:]:
+                    if closes(i):
+                        closed = True
+                        break
+                    if id(i) in uses:
+                        bad = i
+                        break
+                if closed or bad is not None:
+                    continue
+                for s_ in b.succs:
+                    if s_ not in seenb:
+                        seenb.add(s_)
+                        work.append((s_, 0))
+            if bad is None:
+                chk.ok("K12-slotnum", inst, mv, "the number of what was moved is stored before a number is read as a slot again")
+            else:
+                chk.violation("K12-slotnum", inst, bad, "after %s at line %d a node's %s is read as its slot in '%s' although the "
+                              "numbers of the nodes that moved have not been brought up to date: the slot is stale, a node is "
+                              "left behind or stored twice" % ("the memmove over the table" if val is None else "the store into a slot",
+                                                              mv.line, num[1], table[1]))
+    return n
+
+
 def run(chk):
     chk.explanation = (
         "The invariants themselves are predicates over image bytes (value-level). Decided: the structural checks the "
@@ -555,7 +724,7 @@ def run(chk):
         "(directory header run limits incl. the exact 256-entry bound, id count, name length, device number, timestamps) "
         "or a reasoned exception; K13-padding: pad length is a remainder by cfg->devblksize; K1-metablock: 8 KiB limit "
         "and uncompressed fallback. Sortedness, dense inode numbering and reference resolution are "
-        "not decided; of index placement only K11-indexpos (the block recorded for a directory index is queried before its header is appended). K13-truncate and K11-everyblock (shared with C08) decide two layout-consistency conditions of the block writer. 'Directory listings are strictly sorted': K2-sorted (siblings are linked into the tree at a position chosen by strcmp of the names, whatever order entries arrive in) and K2-exact (a length-limited name comparison also checks that the name ends there) K12-appendsame: a list that is appended to under 'differs from the last element' stores the value it compared.")
+        "not decided; of index placement only K11-indexpos (the block recorded for a directory index is queried before its header is appended). K13-truncate and K11-everyblock (shared with C08) decide two layout-consistency conditions of the block writer. 'Directory listings are strictly sorted': K2-sorted (siblings are linked into the tree at a position chosen by strcmp of the names, whatever order entries arrive in) and K2-exact (a length-limited name comparison also checks that the name ends there). K12-appendsame: a list that is appended to under 'differs from the last element' stores the value it compared. K12-slotnum: where slots of the inode table are rewritten (single stores, memmove), the numbers of the nodes that moved are stored before a node's number is read as its slot again (a necessary condition of dense numbering and of every reference resolving after hard links were reordered).")
     chk.assumptions = ["superblock commit order and bytes_used are decided by the C14 check"]
     prog = load_program("gensquashfs")
     rule_compressor_contract(chk, prog)
@@ -566,6 +735,8 @@ def run(chk):
     rule_file_nlink(chk, prog)
     rule_not_full(chk, prog)
     chk.floor("K13-notfull", 1)
+    rule_slot_number(chk, prog)
+    chk.floor("K12-slotnum", 2)
     chk.floor("K12-nlink", 1)
     from .c02 import rule_seqstamp
     rule_seqstamp(chk, prog)
